@@ -19,6 +19,8 @@ def run(tier, seed, work):
     js = hc.jobs("c06", seed, per, depth, nj) + hc.jobs("c06", seed + 3, per, depth, nj, mode="burst") + hc.jobs("c06", seed + 5, per, depth, max(2, nj // 2), mode="mutations")
     # "never dropped" spans restarts from an exported state: the hand-over queues and the block-hash cursor must survive export / import
     rj = [("c06reimp_%d" % j, ["reimport", "-n", 2 if quick else 12, "-depth", 30, "-seed", seed * 1000 + 340 + j, "-mode", "bridge"]) for j in range(4 if quick else 8)]
+    from checks import bridge_common as bc
+    rj += bc.jobs("c06brburst", seed + 9, 3 if quick else 15, 40, 4 if quick else 8, mode="burst")   # bridge-side backlogs beyond every per-block cap
     groups = [("Trace_Handover.tla", "Trace_Handover_C06.cfg", js), ("Trace_Bridge.tla", "Trace_Bridge_C06.cfg", rj)]
     # the locking module's side: every unlock request that succeeds is scheduled (never overwriting what earlier blocks scheduled), every
     # claim is queued, what is due is what the specification says is due - the slice `queues` of the locking histories
